@@ -518,9 +518,16 @@ class FlatLinearOperator(ScipyLinearOperator):
             leg = self.leg
             ch_leg = npc.LegCharge.from_qflat(leg.chinfo, self.possible_charge_sectors, qconj=-leg.qconj)
             res = npc.zeros([self.leg, ch_leg], vec.dtype, labels=[self.vec_label, 'charge'])
-            res._qdata = np.repeat(np.arange(leg.block_number, dtype=np.intp), 2).reshape(leg.block_number, 2)
+            # block `qi` of `leg` belongs to the row of `possible_charge_sectors` with the same charges
+            # (which is `qi` itself only if `leg` is sorted and bunched)
+            sectors = self.possible_charge_sectors
+            qdata = np.empty((leg.block_number, 2), dtype=np.intp)
             for qi in range(leg.block_number):
+                qdata[qi, 0] = qi
+                qdata[qi, 1] = np.nonzero(np.all(sectors == leg.charges[qi], axis=1))[0][0]
                 res._data.append(vec[leg.get_slice(qi)].reshape((-1, 1)))
+            res._qdata = qdata
+            res._qdata_sorted = False
             res.test_sanity()
             return res
 
@@ -560,8 +567,7 @@ class FlatLinearOperator(ScipyLinearOperator):
             res = np.zeros([self.leg.ind_len], npc_vec.dtype)
             leg = self.leg
             for qinds, data in zip(npc_vec._qdata, npc_vec._data):
-                qi = qinds[0]
-                assert qi == qinds[1]
+                qi = qinds[0]  # the charges of a block of `leg` fix the block of the 'charge' leg
                 res[leg.get_slice(qi)] = data.reshape((-1,))
             return res
 
